@@ -363,3 +363,22 @@ def add_short_contig_first(rng, case):
     pos = gen_ref(rng, rng.randint(6, 12), mean=6000, mn=2000, repeats=False)
     case['refs'].insert(0, [mn - 1, round(pos[-1] + 100, 1), pos])
     return case
+
+
+def huge_coordinate_case(rng):
+    """Contig-sized queries: query coordinates / lengths beyond 2**21 (with fractions) and 2**24, sparse labels so it is cheap."""
+    pos = []
+    p = 20000.0
+    for _ in range(700):
+        pos.append(round(p, 1))
+        p += 20000 + rng.expovariate(1 / 25000)
+    refs = [[1, round(pos[-1] + 5000.5, 1), pos]]
+    queries, qclass = [], {}
+    for j, (n, lo) in enumerate([(120, 5), (400, 100), (640, 20), (200, 300)]):
+        s = rng.randint(lo, max(lo, len(pos) - n - 2))
+        sub = pos[s:s + n]
+        q = [x - sub[0] for x in sub]
+        qp, ql = finish_query(rng, q, off=rng.choice([0.3, 20.5, 1000.7]), trail=rng.choice([0.4, 50.6]), flip=bool(j % 2))
+        queries.append([j + 1, ql, qp])
+        qclass[str(j + 1)] = 'contig-sized'
+    return {'refs': refs, 'queries': queries, 'qclass': qclass, 'params': dict(DEFAULTS), 'mode': rng.choice(MODES)}
